@@ -49,8 +49,8 @@ theorem ocomb_assoc (A : AggType) (x y z : Option Int) :
 theorem ocomb_comm {A : AggType} (h : AggComm A) (x y : Option Int) : ocomb A x y = ocomb A y x := by
   cases x <;> cases y <;> simp [ocomb, h _ _]
 
-/-- `mergeCell` is `ocomb` with the arguments swapped. -/
-theorem mergeCell_eq (A : AggType) (n o : Option Int) : mergeCell A n o = ocomb A n o := by
+/-- `mergeCell` combines the compressed (older) value first. -/
+theorem mergeCell_eq (A : AggType) (n o : Option Int) : mergeCell A n o = ocomb A o n := by
   cases n <;> cases o <;> rfl
 
 /-! ### the reference slot map -/
@@ -101,11 +101,11 @@ theorem cellAt_ge_length (cs : Cells) (j : Nat) (h : cs.length ≤ j) : cellAt c
 
 theorem cellAt_mergeRange (A : AggType) (b : Buf) (lo hi i : Nat) (h : i < hi + 1 - lo) :
     cellAt (mergeRange A b lo hi) i = mergeCell A (curValue b (lo + i)) (oldValue b.compress (lo + i)) := by
-  unfold cellAt mergeRange
+  unfold cellAt mergeRange mergeRangeG
   simp [List.getElem?_map, List.getElem?_range h]
 
 theorem mergeRange_length (A : AggType) (b : Buf) (lo hi : Nat) : (mergeRange A b lo hi).length = hi + 1 - lo := by
-  simp [mergeRange]
+  simp [mergeRange, mergeRangeG]
 
 /-! ### the page invariant -/
 
@@ -178,42 +178,20 @@ theorem oldValue_compact (A : AggType) (b : Buf) (t : Nat) :
               exact cellAt_ge_length _ _ (by omega)
       rw [hcur, hold]; rfl
 
-/-- the executable "slot present in both the window and the compress buffer" test. -/
-def overlapB (b : Buf) : Bool :=
-  (List.range (b.endd + 1)).any (fun i =>
-    (curValue b (b.start + i)).isSome && (oldValue b.compress (b.start + i)).isSome)
-
-theorem no_overlap_of_overlapB {b : Buf} (h : overlapB b = false) (t : Nat) :
-    curValue b t = none ∨ oldValue b.compress t = none := by
-  by_cases hr : t < b.start ∨ t > b.start + b.endd
-  · exact Or.inl (curValue_none_of_out b t hr)
-  · have hmem : t - b.start ∈ List.range (b.endd + 1) := by simp; omega
-    have := (List.any_eq_false.mp h) (t - b.start) hmem
-    have ht : b.start + (t - b.start) = t := by omega
-    rw [ht] at this
-    cases hc : curValue b t <;> cases ho : oldValue b.compress t <;> simp [hc, ho] at this ⊢
-
-/-- compaction keeps what a memory query sees (for a commutative aggregate, or when no slot is in
-both the window and the compress buffer). -/
-theorem memView_compact (A : AggType) (b : Buf) (hd : b.hasData = true)
-    (h : AggComm A ∨ overlapB b = false) (t : Nat) :
+/-- compaction keeps what a memory query sees, for every aggregate (the merge combines the
+compressed value first, exactly as the memory query does). -/
+theorem memView_compact (A : AggType) (b : Buf) (hd : b.hasData = true) (t : Nat) :
     memView A (compact A b) t = memView A b t := by
   have hc : (compact A b).hasData = false := rfl
   simp only [memView, hc, hd, if_true, oldValue_compact, mergeCell_eq]
   simp
-  cases h with
-  | inl hcomm => exact ocomb_comm hcomm _ _
-  | inr hno =>
-    cases no_overlap_of_overlapB hno t with
-    | inl h1 => simp [h1]
-    | inr h2 => simp [h2]
 
 theorem BufInv.compact {w : Nat} {b : Buf} (A : AggType) (hi : BufInv w b) : BufInv w (compact A b) := by
-  refine ⟨hi.wpos, by simp [MemDB.compact, hi.len], ?_, ?_, ?_, ?_⟩
-  · intro _ i; simp [MemDB.compact, cellAt_map_none]
-  · intro h; simp [MemDB.compact] at h
-  · intro h; simp [MemDB.compact] at h
-  · intro h; simp [MemDB.compact] at h
+  refine ⟨hi.wpos, by simp [MemDB.compact, MemDB.compactG, hi.len], ?_, ?_, ?_, ?_⟩
+  · intro _ i; simp [MemDB.compact, MemDB.compactG, cellAt_map_none]
+  · intro h; simp [MemDB.compact, MemDB.compactG] at h
+  · intro h; simp [MemDB.compact, MemDB.compactG] at h
+  · intro h; simp [MemDB.compact, MemDB.compactG] at h
 
 /-- `writeFirstPoint` on a page without data. -/
 theorem memView_writeFirst (A : AggType) {w : Nat} (b : Buf) (hi : BufInv w b) (hd : b.hasData = false)
@@ -244,19 +222,12 @@ theorem BufInv.writeFirst {w : Nat} {b : Buf} (hi : BufInv w b) (hd : b.hasData 
   · intro _
     simp [MemDB.writeFirst, cellAt_set, hlen]
 
-/-- a step of `write` is good: it is not the unsafe step, and if it compacts, the aggregate is
-commutative or no slot is in both the window and the compress buffer. -/
-def goodStep (w : Nat) (A : AggType) (b : Buf) (slot : Nat) : Bool :=
-  !unsafeStep w b slot &&
-    (AggType.isComm A || !(b.hasData && (decide (slot < b.start) || decide (slot > b.start + w - 1))) || !overlapB b)
-
-/-- one good write refines one reference append. -/
-theorem write_step (w : Nat) (A : AggType) (b : Buf) (hi : BufInv w b) (slot : Nat) (v : Int)
-    (hg : goodStep w A b slot = true) :
+/-- one write refines one reference append — for every aggregate, every slot order. -/
+theorem write_step (w : Nat) (A : AggType) (b : Buf) (hi : BufInv w b) (slot : Nat) (v : Int) :
     BufInv w (write w A b slot v) ∧
     ∀ t, memView A (write w A b slot v) t =
       if slot = t then ocomb A (memView A b t) (some v) else memView A b t := by
-  unfold write
+  unfold write writeG
   by_cases hd : b.hasData = false
   · -- no data written before
     simp only [hd, Bool.not_false, if_true]
@@ -266,21 +237,11 @@ theorem write_step (w : Nat) (A : AggType) (b : Buf) (hi : BufInv w b) (slot : N
     by_cases hout : slot < b.start ∨ slot > b.start + w - 1
     · -- out of the window: compact, then first point
       simp only [hout, if_true]
-      have hcm : AggComm A ∨ overlapB b = false := by
-        simp only [goodStep, hd', Bool.true_and, Bool.and_eq_true, Bool.or_eq_true, Bool.not_eq_true'] at hg
-        have h2 := hg.2
-        rcases h2 with (h2 | h2) | h2
-        · exact Or.inl (agg_comm_of_isComm h2)
-        · simp at h2
-          rcases hout with ho | ho
-          · exact absurd ho (by omega)
-          · exact absurd ho (by omega)
-        · exact Or.inr h2
       have hic := hi.compact A
       have hdc : (compact A b).hasData = false := rfl
       refine ⟨hic.writeFirst hdc slot v, ?_⟩
       intro t
-      rw [memView_writeFirst A (compact A b) hic hdc slot v t, memView_compact A b hd' hcm t]
+      rw [memView_writeFirst A (compact A b) hic hdc slot v t, memView_compact A b hd' t]
     · -- inside the window
       simp only [hout, if_false]
       have hge : b.start ≤ slot := by omega
@@ -322,49 +283,64 @@ theorem write_step (w : Nat) (A : AggType) (b : Buf) (hi : BufInv w b) (slot : N
               have : ¬(slot - b.start = t - b.start) := by omega
               simp [this]
       | none =>
-        -- first time for this slot inside the window
-        simp only
-        have hsafe : ¬(slot - b.start < b.endd) := by
-          intro hlt
-          have hu : unsafeStep w b slot = true := by
-            have h1 : ¬(slot < b.start) := by omega
-            have h2 : ¬(slot > b.start + w - 1) := by omega
-            simp [unsafeStep, hd', hcell, h1, h2, hlt]
-          simp [goodStep, hu] at hg
+        -- first time for this slot inside the window: `end` grows or stays
+        simp only [if_true]
         have hne : slot - b.start ≠ b.endd := by
           intro h; have := hi.endMarked hd'; rw [← h, hcell] at this; exact this rfl
-        have hgt : b.endd < slot - b.start := by omega
+        have hendlt := hi.endLt hd'
         refine ⟨⟨hi.wpos, by simp [hi.len], ?_, ?_, ?_, ?_⟩, ?_⟩
         · intro h; simp [hd'] at h
-        · intro _; exact hlt
+        · intro _
+          show (if slot - b.start > b.endd then slot - b.start else b.endd) < w
+          split <;> omega
         · intro _ i hne'
-          show i ≤ slot - b.start
+          show i ≤ (if slot - b.start > b.endd then slot - b.start else b.endd)
           simp only [cellAt_set] at hne'
           by_cases h0 : slot - b.start = i
-          · omega
+          · split <;> omega
           · simp [h0] at hne'
             have := hi.marked hd' i hne'
-            omega
+            split <;> omega
         · intro _
-          show cellAt (b.cells.set (slot - b.start) (some v)) (slot - b.start) ≠ none
-          simp [cellAt_set, hlen]
+          show cellAt (b.cells.set (slot - b.start) (some v))
+            (if slot - b.start > b.endd then slot - b.start else b.endd) ≠ none
+          simp only [cellAt_set]
+          by_cases hgt : slot - b.start > b.endd
+          · simp [hgt, hlen]
+          · simp only [hgt, if_false]
+            have : ¬(slot - b.start = b.endd ∧ slot - b.start < b.cells.length) := fun h => hne h.1
+            simp only [this, if_false]
+            exact hi.endMarked hd'
         · intro t
           simp only [memView, hd', if_true, curValue]
+          show ocomb A (oldValue b.compress t)
+              (if t < b.start ∨ t > b.start + (if slot - b.start > b.endd then slot - b.start else b.endd) then none
+                else cellAt (b.cells.set (slot - b.start) (some v)) (t - b.start)) = _
           by_cases hst : slot = t
           · subst hst
-            have h1 : ¬(slot < b.start ∨ slot > b.start + (slot - b.start)) := by omega
-            have h2 : slot < b.start ∨ slot > b.start + b.endd := by omega
-            simp [h1, h2, cellAt_set, hlen]
+            have h1 : ¬(slot < b.start ∨
+                slot > b.start + (if slot - b.start > b.endd then slot - b.start else b.endd)) := by
+              split <;> omega
+            simp only [h1, if_false, cellAt_set, hlen, and_self, if_true]
+            -- before the write the slot had no current value
+            have hbefore : (if slot < b.start ∨ slot > b.start + b.endd then (none : Option Int)
+                else cellAt b.cells (slot - b.start)) = none := by
+              split
+              · rfl
+              · exact hcell
+            rw [hbefore]
+            simp
           · simp only [hst, if_false]
             by_cases hr : t < b.start ∨ t > b.start + b.endd
             · -- outside the old range: still nothing
               simp only [hr, if_true]
-              by_cases hr2 : t < b.start ∨ t > b.start + (slot - b.start)
+              by_cases hr2 : t < b.start ∨
+                  t > b.start + (if slot - b.start > b.endd then slot - b.start else b.endd)
               · simp [hr2]
               · simp only [hr2, if_false, cellAt_set]
-                have h3 : ¬(slot - b.start = t - b.start) := by omega
-                simp only [h3, false_and, if_false]
-                -- an unmarked cell beyond the old end
+                have h3 : ¬(slot - b.start = t - b.start ∧ slot - b.start < b.cells.length) := by
+                  intro h; omega
+                simp only [h3, if_false]
                 have : cellAt b.cells (t - b.start) = none := by
                   cases hc : cellAt b.cells (t - b.start) with
                   | none => rfl
@@ -372,15 +348,13 @@ theorem write_step (w : Nat) (A : AggType) (b : Buf) (hi : BufInv w b) (slot : N
                     have := hi.marked hd' (t - b.start) (by simp [hc])
                     omega
                 simp [this]
-            · have hr2 : ¬(t < b.start ∨ t > b.start + (slot - b.start)) := by omega
+            · have hr2 : ¬(t < b.start ∨
+                  t > b.start + (if slot - b.start > b.endd then slot - b.start else b.endd)) := by
+                split <;> omega
               simp only [hr, hr2, if_false, cellAt_set]
-              have h3 : ¬(slot - b.start = t - b.start) := by omega
+              have h3 : ¬(slot - b.start = t - b.start ∧ slot - b.start < b.cells.length) := by
+                intro h; omega
               simp [h3]
-
-/-- all steps of a run are good (executable). -/
-def goodRunB (w : Nat) (A : AggType) : Buf → List (Nat × Int) → Bool
-  | _, [] => true
-  | b, x :: rest => goodStep w A b x.1 && goodRunB w A (write w A b x.1 x.2) rest
 
 theorem refSlots_cons (A : AggType) (x : Nat × Int) (ws : List (Nat × Int)) (t : Nat) :
     refSlots A (x :: ws) t = ocomb A (if x.1 = t then some x.2 else none) (refSlots A ws t) := by
@@ -401,145 +375,34 @@ theorem refSlots_cons (A : AggType) (x : Nat × Int) (ws : List (Nat × Int)) (t
   rw [gen]
   by_cases hx : x.1 = t <;> simp [hx]
 
-/-- the page after a good run: invariant, and the memory view is the view before combined with the
+/-- the page after any run: invariant, and the memory view is the view before combined with the
 reference slot map of the run. -/
 theorem run_refines (w : Nat) (A : AggType) :
-    ∀ (ws : List (Nat × Int)) (b : Buf), BufInv w b → goodRunB w A b ws = true →
+    ∀ (ws : List (Nat × Int)) (b : Buf), BufInv w b →
       BufInv w (runWrites w A b ws) ∧
       ∀ t, memView A (runWrites w A b ws) t = ocomb A (memView A b t) (refSlots A ws t) := by
   intro ws
   induction ws with
-  | nil => intro b hi _; exact ⟨hi, by intro t; simp [runWrites]⟩
+  | nil => intro b hi; exact ⟨hi, by intro t; simp [runWrites]⟩
   | cons x rest ih =>
-    intro b hi hg
-    simp only [goodRunB, Bool.and_eq_true] at hg
-    obtain ⟨hi1, hv1⟩ := write_step w A b hi x.1 x.2 hg.1
-    obtain ⟨hi2, hv2⟩ := ih (write w A b x.1 x.2) hi1 hg.2
+    intro b hi
+    obtain ⟨hi1, hv1⟩ := write_step w A b hi x.1 x.2
+    obtain ⟨hi2, hv2⟩ := ih (write w A b x.1 x.2) hi1
     refine ⟨by simpa [runWrites] using hi2, ?_⟩
     intro t
     have : runWrites w A b (x :: rest) = runWrites w A (write w A b x.1 x.2) rest := by simp [runWrites]
     rw [this, hv2 t, hv1 t, refSlots_cons]
     by_cases hx : x.1 = t <;> simp [hx, ocomb_assoc]
 
-/-! ### a sufficient extensional condition: slots arrive in non-decreasing order -/
+/-- the selected variant is the repaired code when the two flags of the write buffer are set. -/
+theorem writeV_fixed (cfg : Cfg) (h1 : cfg.endGuard = true) (h2 : cfg.mergeOldFirst = true) :
+    writeV cfg = write := by
+  funext w A b slot v
+  simp only [writeV, write, h1, h2, if_true]
+  rfl
 
-/-- invariant of a page whose slots arrive in non-decreasing order: the window ends at the last
-slot written and everything in the compress buffer lies before the window. -/
-structure SortedInv (b : Buf) (last : Nat) : Prop where
-  has : b.hasData = true
-  atEnd : b.start + b.endd = last
-  before : ∀ t, oldValue b.compress t ≠ none → t < b.start
-
-theorem overlapB_false_of_before {b : Buf} (h : ∀ t, oldValue b.compress t ≠ none → t < b.start) :
-    overlapB b = false := by
-  unfold overlapB
-  rw [List.any_eq_false]
-  intro i _
-  cases ho : oldValue b.compress (b.start + i) with
-  | none => simp
-  | some x =>
-    have := h (b.start + i) (by simp [ho])
-    omega
-
-theorem sorted_step (w : Nat) (A : AggType) (b : Buf) (hi : BufInv w b) (last : Nat) (hs : SortedInv b last)
-    (slot : Nat) (v : Int) (hle : last ≤ slot) :
-    goodStep w A b slot = true ∧ SortedInv (write w A b slot v) slot := by
-  have hd := hs.has
-  have hend := hi.endLt hd
-  by_cases hout : slot < b.start ∨ slot > b.start + w - 1
-  · -- leaves the window (only upwards)
-    have hgt : slot > b.start + w - 1 := by
-      rcases hout with h | h
-      · have := hs.atEnd; omega
-      · exact h
-    have hno := overlapB_false_of_before hs.before
-    constructor
-    · have h1 : unsafeStep w b slot = false := by
-        have : ¬(slot < b.start) := by omega
-        simp [unsafeStep, hd, hgt]
-      simp [goodStep, h1, hno]
-    · unfold write
-      simp only [hd, Bool.not_true, Bool.false_eq_true, if_false, hout, if_true]
-      refine ⟨rfl, by simp [writeFirst], ?_⟩
-      intro t hne
-      show t < slot
-      have hc : (writeFirst (compact A b) slot v).compress = (compact A b).compress := rfl
-      rw [hc, oldValue_compact] at hne
-      cases hcur : curValue b t with
-      | some x =>
-        have : ¬(t < b.start ∨ t > b.start + b.endd) := by
-          intro h; rw [curValue_none_of_out b t h] at hcur; cases hcur
-        omega
-      | none =>
-        cases hold : oldValue b.compress t with
-        | none => simp [hcur, hold, mergeCell] at hne
-        | some y =>
-          have := hs.before t (by simp [hold])
-          omega
-  · -- stays inside the window
-    have hge : b.start ≤ slot := by omega
-    have hlen : slot - b.start < b.cells.length := by rw [hi.len]; have := hi.wpos; omega
-    cases hcell : cellAt b.cells (slot - b.start) with
-    | some old =>
-      have hle2 := hi.marked hd (slot - b.start) (by simp [hcell])
-      constructor
-      · have h1 : unsafeStep w b slot = false := by simp [unsafeStep, hcell]
-        have h2 : (decide (slot < b.start) || decide (slot > b.start + w - 1)) = false := by
-          simp; omega
-        simp [goodStep, h1, h2]
-      · unfold write
-        simp only [hd, Bool.not_true, Bool.false_eq_true, if_false, hout, hcell]
-        refine ⟨rfl, ?_, hs.before⟩
-        show b.start + b.endd = slot
-        have := hs.atEnd; omega
-    | none =>
-      have hne : slot - b.start ≠ b.endd := by
-        intro h; have := hi.endMarked hd; rw [← h, hcell] at this; exact this rfl
-      constructor
-      · have h1 : unsafeStep w b slot = false := by
-          have : ¬(slot - b.start < b.endd) := by have := hs.atEnd; omega
-          simp [unsafeStep, this]
-        have h2 : (decide (slot < b.start) || decide (slot > b.start + w - 1)) = false := by
-          simp; omega
-        simp [goodStep, h1, h2]
-      · unfold write
-        simp only [hd, Bool.not_true, Bool.false_eq_true, if_false, hout, hcell]
-        refine ⟨rfl, ?_, hs.before⟩
-        show b.start + (slot - b.start) = slot
-        omega
-
-theorem sorted_goodRun_from (w : Nat) (A : AggType) :
-    ∀ (ws : List (Nat × Int)) (b : Buf) (last : Nat), BufInv w b → SortedInv b last →
-      (∀ x ∈ ws, last ≤ x.1) → ws.Pairwise (fun a c => a.1 ≤ c.1) → goodRunB w A b ws = true := by
-  intro ws
-  induction ws with
-  | nil => intros; rfl
-  | cons x rest ih =>
-    intro b last hi hs hall hp
-    have hx := hall x (by simp)
-    obtain ⟨hg, hs'⟩ := sorted_step w A b hi last hs x.1 x.2 hx
-    have hi' := (write_step w A b hi x.1 x.2 hg).1
-    simp only [goodRunB, hg, Bool.true_and]
-    rw [List.pairwise_cons] at hp
-    exact ih _ x.1 hi' hs' (fun y hy => hp.1 y hy) hp.2
-
-/-- slots in non-decreasing order: every step of the run from a fresh page is good, for every
-aggregate (also first/last). -/
-theorem sorted_goodRun (w : Nat) (hw : 0 < w) (A : AggType) (ws : List (Nat × Int))
-    (hp : ws.Pairwise (fun a c => a.1 ≤ c.1)) : goodRunB w A (Buf.fresh w) ws = true := by
-  cases ws with
-  | nil => rfl
-  | cons x rest =>
-    have hi := BufInv.fresh hw
-    have hd : (Buf.fresh w).hasData = false := rfl
-    have hg : goodStep w A (Buf.fresh w) x.1 = true := by simp [goodStep, unsafeStep, Buf.fresh]
-    simp only [goodRunB, hg, Bool.true_and]
-    have hw1 : write w A (Buf.fresh w) x.1 x.2 = writeFirst (Buf.fresh w) x.1 x.2 := by simp [write, Buf.fresh]
-    rw [hw1]
-    rw [List.pairwise_cons] at hp
-    refine sorted_goodRun_from w A rest _ x.1 (hi.writeFirst hd x.1 x.2) ⟨rfl, by simp [writeFirst], ?_⟩
-      (fun y hy => hp.1 y hy) hp.2
-    intro t hne
-    simp [writeFirst, Buf.fresh, oldValue] at hne
+theorem flushCellsV_fixed (cfg : Cfg) (h2 : cfg.mergeOldFirst = true) : flushCellsV cfg = flushCells := by
+  funext A b lo hi
+  simp [flushCellsV, flushCells, mergeRange, h2]
 
 end LinVerif.Lemmas.C11
